@@ -350,8 +350,18 @@ theorem qr_roundtrip_bits (T : Tables) (hT : TablesConform T) (hint : Hint) (v :
   have hb : ∀ x ∈ data, x < 256 := by rw [← hdata]; exact terminate_lt _ _
   have hl := Gzx.Properties.C07.final_codewords_length v h1 h40 ec data hd
   have hcb := QRRef.finalCodewords_lt v ec data hb
-  obtain ⟨q, short, long, hsplit, w, hq, h255, eb, heb, hec, hshape, htot⟩ :=
+  obtain ⟨s, l, q, hs, hq, h255, hlens, hpar, eb, heb, hec, hshape0, htot0⟩ :=
     refBlocks_structure v h1 h40 ec data hd
+  generalize hshort : (refBlocks v ec data).take s = short
+  generalize hlong : (refBlocks v ec data).drop s = long
+  have hsplit : refBlocks v ec data = short ++ long := by
+    rw [← hshort, ← hlong]; exact (List.take_append_drop _ _).symm
+  have w : ShortLong q (QRRef.ecPerBlock v ec) short long := by
+    rw [← hshort, ← hlong]; exact shortLong_of_lengths _ s l q _ hs hlens hpar
+  have hshape : blockShapes eb = (short ++ long).map (fun b => (b.1.length, QRRef.ecPerBlock v ec + b.1.length)) := by
+    rw [hshape0, ← hlens, ← hsplit, List.map_map]; rfl
+  have htot : (refVersion v).totalCodewords = (QRDec.interleave (short ++ long)).length := by
+    rw [← hsplit]; exact htot0
   have hcw : QRRef.finalCodewords v ec data = QRDec.interleave (short ++ long) := by
     rw [finalCodewords_eq_interleave, hsplit]
   have hdim : ¬ ((sym v ec mask (QRRef.finalCodewords v ec data)).dim < 21 ∨
